@@ -17,7 +17,7 @@ import (
 func init() {
 	register(Property{ID: "C03", Level: "proof", Run: runC03,
 		Technique: "static analysis: whole-program who-may/enumeration of PathAccessRequest constructions and SkipAuth sites, must-pass-through path conditions on the path-manager handlers (go/ssa), AST origin classification of ConfToCompare",
-		Text: "Proof obligations over the whole module: (1) on every path of pathManager.doFindPathConf/doDescribe/doAddReader/doAddPublisher a success reply is sent only after conf.FindPathConf succeeded for the request's name and the auth manager admitted ToAuthRequest() of the same request (or SkipAuth), doAddPublisher additionally only if ConfToCompare is nil or Equal to the resolved conf; doFindPathConf never honours SkipAuth; (2) ToAuthRequest maps name/action/IP/credentials/query/protocol field by field; (3) (*path).describe/addReader/addPublisher are called only from the manager wrappers after a nil-error reply; (4) every SkipAuth:true site in the module (all build configurations that contain one) is classified: publisher sites carry a ConfToCompare that flows from the Conf of a FindPathConf(Publish:true) result, internal-reader sites are a frozen table, the CDN site is guarded by isCDN = secret configured ∧ bearer equality; any other site is a violation; (5) Publish constants match the manager call. Obligations = sites x clauses.",
+		Text: "Proof obligations over the whole module: (1) on every path of pathManager.doFindPathConf/doDescribe/doAddReader/doAddPublisher a success reply is sent only after conf.FindPathConf succeeded for the request's name and the auth manager admitted ToAuthRequest() of the same request (or SkipAuth), doAddPublisher additionally only if ConfToCompare is nil or Equal to the resolved conf; doFindPathConf never honours SkipAuth; (2) ToAuthRequest maps name/action/IP/credentials/query/protocol field by field; (3) (*path).describe/addReader/addPublisher are called only from the manager wrappers after a nil-error reply; (4) every SkipAuth:true site in the module (all build configurations that contain one) is classified: publisher sites carry a ConfToCompare that flows from the Conf of a FindPathConf(Publish:true) result, internal-reader sites are a frozen table, the CDN site is guarded by isCDN = secret configured ∧ bearer equality; any other site is a violation; (5) Publish constants match the manager call; (6) 'exactly that path and the matching action': in every boolean decision function that branches on the Path of an element of a []conf.AuthInternalUserPermission (auth.matchesPermission), no path test of an element leads to a return that may be true unless, in the same loop iteration, `thatElement.Action == request.Action` held - action and path are granted by ONE entry (decided on SSA with element identity = index value, through copies, pointers and extracted helpers). Obligations = sites x clauses.",
 		Note: "trusted: auth manager (C01/C02), gortsplib invariant announced path == rsession.Path()[1:], conf.Path.Equal = reflect.DeepEqual, go/ssa CFG construction; flow through struct fields is resolved per package over all stores/literal keys of that field (flow-insensitive)"})
 	addMutants(
 		Mutant{"C03", "drop-skipauth-guard-addreader", "internal/core/path_manager.go",
@@ -46,6 +46,12 @@ func init() {
 			`isCDN := (ctx.Request.Header.Get("Authorization") == "Bearer "+s.cdnSecret)`, "C03.cdn"},
 		Mutant{"C03", "addpublisher-publish-false", "internal/servers/moq/session.go",
 			"Publish:              true,", "Publish:              false,", "C03.publish_flag"},
+		Mutant{"C03", "action-granted-by-any-entry", "internal/auth/manager.go",
+			"	for _, perm := range perms {\n		if perm.Action == req.Action {",
+			"	actionGranted := func() bool {\n		for _, q := range perms {\n			if q.Action == req.Action {\n				return true\n			}\n		}\n		return false\n	}()\n	for _, perm := range perms {\n		if actionGranted {", "C03.perm.same_entry"},
+		Mutant{"C03", "action-match-sticks-to-later-entries", "internal/auth/manager.go",
+			"	for _, perm := range perms {\n		if perm.Action == req.Action {",
+			"	granted := false\n	for _, perm := range perms {\n		granted = granted || perm.Action == req.Action\n		if granted {", "C03.perm.same_entry"},
 	)
 }
 
@@ -97,9 +103,9 @@ func runC03(c *Ctx) {
 	if p == nil {
 		return
 	}
-	c.Explain = "E1 on the four path-manager handlers and the three wrappers; E3 on ToAuthRequest; E2 enumeration of every defs.PathAccessRequest composite literal and SkipAuth store in the module with per-site classification (publisher / internal reader / CDN), ConfToCompare origin resolved through locals, same-package struct fields and parameters of unexported functions. linux/arm is loaded additionally because the rpicamera SkipAuth site exists only there."
+	c.Explain = "E1 on the four path-manager handlers and the three wrappers; E3 on ToAuthRequest; E2 enumeration of every defs.PathAccessRequest composite literal and SkipAuth store in the module with per-site classification (publisher / internal reader / CDN), ConfToCompare origin resolved through locals, same-package struct fields and parameters of unexported functions. linux/arm is loaded additionally because the rpicamera SkipAuth site exists only there. Rule C03.perm.same_entry (prop_r3_c03.go): two edge-filtered walks per list element of every boolean decision function that branches on a permission entry's Path - (1) from the function entry avoiding every edge on which `element.Action == request.Action` holds, (2) from each path test reached that way, staying in the element's loop iteration, to a return that is not the constant false; a hit means path and action can be granted by different entries."
 	c.Assume = []string{
-		"the auth manager decides correctly (C01, C02)",
+		"the auth manager decides correctly (C01, C02) apart from the entry binding of action and path, which is decided here",
 		"gortsplib: the path announced in ANNOUNCE equals ServerSession.Path() afterwards",
 		"conf.Path.Equal is reflect.DeepEqual on the configuration",
 	}
@@ -235,6 +241,9 @@ func runC03(c *Ctx) {
 		})
 	}
 	c.Floor("C03.who_may", nCalls, 6)
+
+	// ---- (6) action and path are granted by the same permission entry (prop_r3_c03.go)
+	c.c03SameEntry(p)
 
 	// ---- (4),(5) sites, per build configuration
 	c.accessSites(p, true)
